@@ -86,6 +86,7 @@ type Obligation struct {
 	Time   float64
 	Model  string
 	Output string
+	Replay *Replay
 }
 
 // ---------------------------------------------------------------------------
